@@ -88,9 +88,25 @@ unmangle!(
         out_buf_size: *mut usize,
         flags: u32,
     ) -> i32 {
+        if in_buf_size.is_null()
+            || out_buf_size.is_null()
+            || out_buf_start.is_null()
+            || out_buf_next.is_null()
+            || (in_buf.is_null() && *in_buf_size != 0)
+        {
+            return TINFLStatus::BadParam as i32;
+        }
+        let r_ref = match r.as_mut() {
+            Some(r_ref) => r_ref,
+            None => return TINFLStatus::BadParam as i32,
+        };
+        let in_buf = if in_buf.is_null() {
+            ptr::NonNull::<u8>::dangling().as_ptr() as *const u8
+        } else {
+            in_buf
+        };
         let next_pos = out_buf_next as usize - out_buf_start as usize;
         let out_size = *out_buf_size + next_pos;
-        let r_ref = r.as_mut().expect("bad decompressor pointer");
         if let Some(decompressor) = r_ref.inner.as_mut() {
             let (status, in_consumed, out_consumed) = decompress(
                 decompressor.as_mut(),
@@ -116,6 +132,14 @@ unmangle!(
         flags: c_int,
     ) -> size_t {
         let flags = flags as u32;
+        if p_out_buf.is_null() || (p_src_buf.is_null() && src_buf_len != 0) {
+            return TINFL_DECOMPRESS_MEM_TO_MEM_FAILED as size_t;
+        }
+        let p_src_buf = if p_src_buf.is_null() {
+            ptr::NonNull::<u8>::dangling().as_ptr() as *const c_void
+        } else {
+            p_src_buf
+        };
         let mut decomp = Box::<DecompressorOxide>::default();
 
         let (status, _, out_consumed) = decompress(
@@ -147,6 +171,18 @@ unmangle!(
     ) -> *mut c_void {
         let flags = flags as u32;
         const MIN_BUFFER_CAPACITY: size_t = 128;
+        if p_out_len.is_null() {
+            return ptr::null_mut();
+        }
+        if p_src_buf.is_null() && src_buf_len != 0 {
+            *p_out_len = 0;
+            return ptr::null_mut();
+        }
+        let p_src_buf = if p_src_buf.is_null() {
+            ptr::NonNull::<u8>::dangling().as_ptr() as *const c_void
+        } else {
+            p_src_buf
+        };
 
         // We're not using a Vec for the buffer here to make sure the buffer is allocated and freed by
         // the same allocator.
@@ -232,7 +268,10 @@ unmangle!(
     }
 
     pub unsafe extern "C" fn tinfl_init(c: *mut tinfl_decompressor) {
-        let wrapped = c.as_mut().unwrap();
+        let wrapped = match c.as_mut() {
+            Some(wrapped) => wrapped,
+            None => return,
+        };
         if let Some(decomp) = wrapped.inner.as_mut() {
             decomp.init();
         } else {
@@ -241,7 +280,10 @@ unmangle!(
     }
 
     pub unsafe extern "C" fn tinfl_get_adler32(c: *mut tinfl_decompressor) -> c_int {
-        let wrapped = c.as_mut().unwrap();
+        let wrapped = match c.as_mut() {
+            Some(wrapped) => wrapped,
+            None => return 0,
+        };
         if let Some(decomp) = wrapped.inner.as_mut() {
             // TODO: Need to test if conversion is ok.
             decomp.adler32().unwrap_or(0) as c_int
